@@ -1,6 +1,7 @@
 import FitProps.Go2LeanTimestamp
 import FitProps.Go2LeanRecordHeader
 import FitProps.Go2LeanProtoMarshal
+import FitProps.Go2LeanEncoderMesgDef
 /-!
 # C01 — tie of the compressed-timestamp arithmetic to the source by translation
 
@@ -99,5 +100,12 @@ theorem C01_go2lean_data_header (b : List Nat) (hdr : Nat) (m : Fit.Wire.WMsg) :
     (Go.protomarshal.Message_MarshalAppend_header b hdr).b = b ++ [hdr] ∧
     (Go.protomarshal.Message_MarshalAppend_header [] hdr).b ++ Fit.Wire.payload m = hdr :: Fit.Wire.payload m :=
   pm_data_header b hdr m
+
+/-! the same for the definition as the ENCODER builds it (encoder/encoder.go `newMessageDefinition`, unit `encodermesgdef`).
+PROPERTY THEOREMS (audited by ./check): C01_go2lean_enc_def_wire -/
+
+theorem C01_go2lean_enc_def_wire (h0 r0 a0 n0 arch : Nat) (m : Fit.Wire.WMsg) (b : List Nat) :
+    Go.protomarshal.MessageDefinition.MarshalAppend (pmEncDefOf h0 r0 a0 n0 arch m) b = some (b ++ Fit.Wire.defBytes arch m) :=
+  pm_enc_def_wire h0 r0 a0 n0 arch m b
 
 end Fit.C01
